@@ -22,6 +22,28 @@ from lint.common import AnalysisBroken
 LEVEL = 'other'
 
 
+def sym_bounds(dec, sym):
+    """(lower, upper) bound on the entry value `sym` implied by the decisions of a path (comparisons with integer constants)"""
+    lb = ub = None
+    for (o, x, y), v in dec.items():
+        if x != sym or not isinstance(y, int):
+            continue
+        if not v:
+            o = {'<': '>=', '>=': '<', '>': '<=', '<=': '>', '==': '!=', '!=': '=='}[o]
+        if o == '<':
+            ub = y - 1 if ub is None else min(ub, y - 1)
+        elif o == '<=':
+            ub = y if ub is None else min(ub, y)
+        elif o == '>':
+            lb = y + 1 if lb is None else max(lb, y + 1)
+        elif o == '>=':
+            lb = y if lb is None else max(lb, y)
+        elif o == '==':
+            lb = y if lb is None else max(lb, y)
+            ub = y if ub is None else min(ub, y)
+    return lb, ub
+
+
 def task_list_summaries(run, F, E):
     """C10.a / C10.c for the task pool, decided on effect summaries (lint/symeval.py): each operation is evaluated once per combination
     of the entry-state comparisons it branches on; per path, *what ends up stored where* (last store per cell), the exit values of
@@ -155,46 +177,60 @@ def task_list_summaries(run, F, E):
 
 def capacity_rules(run, F, E):
     task_list_summaries(run, F, E)
-    for fn in F.find('PlanT', 'append'):
-        rec = F.rec_by_name.get(fn.cls) or {}
-        cap = rec.get('consts', {}).get('TASK_CAPACITY')
-        c = cfgmod.cfg_of(fn)
-        def has_room(t):
-            # count() < CAPACITY  (or count() <= CAPACITY - 1), in whatever spelling
-            return t['k'] == 'bin' and ir.pp(ir.strip(t['l'])) == '_planData.tasks.count()' and \
-                ((t['op'] == '<' and ir.const_val(t['r']) == cap) or (t['op'] == '<=' and ir.const_val(t['r']) == cap - 1))
-        br = ir.find_decisions(c, has_room)
-        ok = len(br) == 1
-        if ok:
-            _, t, f = br[0]
-            muts = c.events(('write', 'new')) + c.events(('call',), lambda n: n.e.get('m') in ('emplace', 'linkTask'))
-            ok = ok and all(c.dominates(t, n) for n in muts)
-            rets = [ir.const_val(n.e.get('e')) for n in c.events(('ret',)) if c.dominates(f, n)]
-            ok = ok and rets == [0]
-            link = c.events(('call',), lambda n: n.e.get('m') == 'linkTask')
-            ok = ok and len(link) == 1 and ir.strip(ir.expand(link[0].e['args'][0], E.decls(fn))).get('m') == 'emplace'
-        run.ob('C10.a', 'PlanT::append (capacity %s) links a new task only under the capacity test and otherwise returns false untouched' % cap, ok,
-               where=fn.pat, key='PlanT::append does not respect the capacity')
-    for fn in F.find('PayloadPlanT', 'append'):
-        c = cfgmod.cfg_of(fn)
-        ws = [ir.pp(ir.strip(n.e['l'])) for n in c.events(('write',)) if n.e.get('k') == 'asg']
-        link = c.events(('call',), lambda n: n.e.get('m') == 'linkTask')
-        ok = ws == ['_planData.planExists'] and len(link) == 1 and ir.strip(ir.expand(link[0].e['args'][0], E.decls(fn))).get('m') == 'emplace'
-        run.ob('C10.a', 'PayloadPlanT::append writes only the planExists flag itself and links what emplace returns (emplace has the capacity test)', ok,
-               where=fn.pat, detail=ws, key='PayloadPlanT::append writes plan storage without a capacity test')
-    for fn in F.find('PlanT', 'linkTask'):
-        c = cfgmod.cfg_of(fn)
-        pid = fn.params[0]['id']
-        br = ir.find_decisions(c, lambda t: t['k'] == 'bin' and t['op'] == '!=' and ir.strip(t['l']).get('id') == pid and ir.const_val(t['r']) == 255)
-        ok = len(br) == 1
-        if ok:
-            _, t, f = br[0]
-            ok = all(c.dominates(t, n) for n in c.events(('write',)))
-            rt = [ir.const_val(n.e.get('e')) for n in c.events(('ret',)) if c.dominates(t, n)]
-            rf = [ir.const_val(n.e.get('e')) for n in c.events(('ret',)) if c.dominates(f, n)]
-            ok = ok and rt == [1] and rf == [0]
-        run.ob('C10.a', 'PlanT::linkTask writes nothing and returns false when it is handed the invalid index (full list)', ok, where=fn.pat,
-               key='PlanT::linkTask links an invalid slot')
+    # append (both plan flavours), on effect summaries: with no room in the pool nothing is stored or linked and false is returned
+    # (whether append tests the capacity itself or relies on the pool's own test); with room the task is constructed from the arguments
+    # in the slot the pool hands out and linked behind the tail, and true is returned
+    from lint import symeval
+    from lint.symeval import Sym, Opaque, ObjRef
+
+    def mk(asm):
+        tasks = ObjRef({'_vacantHead': Sym('vh'), '_vacantTail': Sym('vt'), '_last': Sym('tlast'), '_count': Sym('tcount')}, ['_items'], 'tasks')
+        pd = ObjRef({'taskLinks': ObjRef({}, ['_items'], 'taskLinks'), 'tasks': tasks, 'planExists': Sym('pe')}, [])
+        ev = symeval.Eval(F, {'_bounds': ObjRef({'first': Sym('first'), 'last': Sym('last')}, []), '_planData': pd}, [], asm)
+        ev.distinct_indices = True
+        return ev
+    for tk in ('PlanT', 'PayloadPlanT'):
+        for fn in F.find(tk, 'append'):
+            rec = F.rec_by_name.get(fn.cls) or {}
+            cap = rec.get('consts', {}).get('TASK_CAPACITY')
+            args = [Opaque('arg%d' % j) for j in range(len(fn.params))]
+            try:
+                paths = symeval.explore(mk, fn, args, limit=128)
+            except symeval.Refuse as ex:
+                raise AnalysisBroken('%s::append is outside the offset-domain fragment: %s' % (tk, ex))
+            bad = None
+            n_full = n_ok = 0
+            for dec, sm in paths:
+                lb, ub = sym_bounds(dec, Sym('tcount'))
+                room = True if (ub is not None and ub <= cap - 1) else False if (lb is not None and lb >= cap) else None
+                b_ = sm.fields['_bounds'].fields
+                pe = sm.fields['_planData'].fields['planExists']
+                if room is False:
+                    n_full += 1
+                    ok = not sm.stores and b_ == {'first': Sym('first'), 'last': Sym('last')} and sm.ret in (0, False) and pe in (Sym('pe'), 1, True) and \
+                        sm.fields['_planData'].fields['tasks'].fields['_count'] == Sym('tcount')
+                elif room is True:
+                    handed = None
+                    for (o, x, y), v in dec.items():
+                        if (o, x, y) == ('!=', Sym('vh'), 255):
+                            handed = v
+                        if (o, x, y) == ('==', Sym('vh'), 255):
+                            handed = not v
+                        if (o, x, y) == ('<', Sym('vh'), cap):
+                            handed = v if handed is None else handed
+                    if handed is False:
+                        continue          # the pool claims room but hands out INVALID: excluded by the pool's own invariant (C10.a emplace)
+                    n_ok += 1
+                    slot = [v for a_, i, v in sm.stores if a_ == 'tasks._items' and i == Sym('vh')]
+                    built = bool(slot) and isinstance(slot[-1], Opaque) and isinstance(slot[-1].tag, tuple) and list(slot[-1].tag[1:]) == args
+                    ok = built and sm.ret in (1, True) and pe in (1, True) and b_.get('last') == Sym('vh')
+                else:
+                    ok = False
+                if not ok:
+                    bad = bad or {'decisions': repr(dec), 'stores': repr(sm.stores)[:300], 'bounds': repr(b_), 'returns': repr(sm.ret), 'planExists': repr(pe)}
+            run.ob('C10.a', '%s::append (capacity %s): a full pool leaves the plan untouched and yields false; otherwise the task is built from the arguments and '
+                   'linked at the tail (%d paths)' % (tk, cap, len(paths)), bad is None and n_full >= 1 and n_ok >= 1, where=fn.pat, detail=bad,
+                   key='%s::append does not respect the capacity' % tk)
 
 
 def path_writes(F, E, fn):
